@@ -40,6 +40,8 @@ def run(tier="quick", seed=0, replay=None):
         return 1
     core.lean_stage(chk, "C01")
     from harness import cover
+    from harness import fingerprint
+    fingerprint.direct(chk, ['ixai/explainer/sage/incremental.py', 'ixai/explainer/base.py', 'ixai/utils/tracker/multi_value.py', 'ixai/imputer/marginal_imputer.py', 'ixai/imputer/default_imputer.py'])
     _cv = cover.Cover(['ixai/explainer/sage/incremental.py', 'ixai/explainer/base.py', 'ixai/utils/tracker/multi_value.py', 'ixai/imputer/marginal_imputer.py', 'ixai/imputer/default_imputer.py'])
     _cv.__enter__()
     quick = tier == "quick"
@@ -86,7 +88,7 @@ def run(tier="quick", seed=0, replay=None):
         rigs.append(rig)
         cfgs.append(cfg)
 
-    for ci, cfg in enumerate(_expl.gen_configs(chk, "sage", 60 if quick else 600)):
+    for ci, cfg in enumerate(_expl.gen_configs(chk, "sage", chk.count(60, 600))):
         if ci % 3 == 2:
             one(cfg, chk.rng.randint(5, 8), faults=chk.rng.randint(1, 3))   # callbacks fail, the stream is resumed
         else:
@@ -101,6 +103,8 @@ def run(tier="quick", seed=0, replay=None):
                                names_kind="str", storage_kind="geom", storage_size=2, imputer_kind="joint",
                                loss_kind="arbitrary", lbb=False)
                     one(cfg, 3, perms=[p1, p2])
+    _expl.long_stream_probe(chk, "sage", ["ixai/explainer/sage/incremental.py", "ixai/explainer/base.py", "ixai/utils/tracker/multi_value.py"],
+                            "IncrementalSage", identity=identity_fails)
     try:
         answers = _expl.model_answers(rigs) if core.driver_available() else None
     except Exception as ex:
